@@ -104,6 +104,8 @@ def run(ctx):
             if any(oracle(x) for x in again) or any("in flight" in w or "inside Execute" in w for w in why):
                 failures.append({"case": {k: r.get(k) for k in ("mode", "limit", "test", "jobs", "barrier", "bound", "seed", "restart")}, "why": why,
                                  "how": "looph modes: instrumented jobs with an in-flight counter and a barrier"})
+    stale_rows, sf = lc.stale_worker_failures(binp, ctx.seed, 12 if ctx.tier == "quick" else 100, bound_only=True)
+    failures += sf
     if lc.model_available():
         bad, out = model_mismatches(rows)
         if bad is None:
@@ -125,7 +127,7 @@ def run(ctx):
     vlib.decide(ctx, broken, failures, mismatches, search)
     cov = vlib.proof_coverage(res, PROJ, "C12")
     cov.update({
-        "evaluations": len(rows), "executions_observed": sum(r["execs"] for r in rows),
+        "evaluations": len(rows) + len(stale_rows), "restart_with_old_worker_busy_trials": len(stale_rows), "executions_observed": sum(r["execs"] for r in rows),
         "distinct_nontrivial": len({(r["mode"], r["limit"], r["test"], r["jobs"]) for r in rows if r["max_inflight"] >= 1}),
         "rule": "pool limits 1,2,3,8 (64 in the thorough tier) x {n jobs at a barrier of n, n+1 and 2n+1 jobs at a barrier of n+1, mixed workload}, "
                 "blocking (with and without WorkerLimit), unbounded (24 at a barrier, mixed, never-returning job); non-trivial = at least one execution",
@@ -144,6 +146,13 @@ def replay(ctx, path):
     obj = json.load(open(path))
     c = obj.get("case", {})
     binp = lc.looph()
+    if c.get("kind") == "staleworker":
+        rows, sf = lc.stale_worker_failures(binp, c.get("seed", ctx.seed), c.get("n", 12), bound_only=True)
+        print(json.dumps({"trials": len(rows), "failing": len([r for r in rows if lc.stale_worker_oracle(r, True)])}))
+        if sf:
+            vlib.report_violation(ctx, sf[0])
+            return 1
+        return 0
     rows = [r for r in run_modes(binp, c.get("seed", ctx.seed), "thorough" if c.get("limit") == 64 else "quick")
             if all(r.get(k) == c.get(k) for k in ("mode", "limit", "test", "jobs"))]
     for r in rows:
